@@ -4,7 +4,7 @@ import JaqalModel.Model.Builder
 /-!
 Driver ops for the circuit builder.
 
-* `build`, `build_nomemo`, `build_oldkey`, `build_oldnumkey`:
+* `build`, `build_nomemo`, `build_oldkey`, `build_oldnumkey`, `build_noreset`:
   `{"sx": <Sx JSON>, "natives": null | [<gatedef dump>…], "autoload": bool, "imports": {"<module>": [<gatedef dump>…]}?}`
   → `{"ok": <circuit dump>}` | `{"err": cls}` (cls as `Err.cls`; `Unmodelled:<why>` for inputs outside the model's domain)
 * `parse_build`: the same followed by the "too many registers" check of `parse_jaqal_string`.
@@ -34,7 +34,7 @@ def opBuild (mode : KeyMode) (check : Bool) (j : Json) : Jaqal.R Json := do
   pure (resultToJson (if check then r >>= tooManyRegisters else r))
 
 def ops : List (String × (Json → Jaqal.R Json)) :=
-  [("build", opBuild .new false), ("build_nomemo", opBuild .off false), ("build_oldkey", opBuild .old false), ("build_oldnumkey", opBuild .oldNum false),
+  [("build", opBuild .new false), ("build_nomemo", opBuild .off false), ("build_oldkey", opBuild .old false), ("build_oldnumkey", opBuild .oldNum false), ("build_noreset", opBuild .noReset false),
    ("parse_build", opBuild .new true)]
 
 end Jaqal.Builder
